@@ -565,5 +565,6 @@ fn mono_cubic_closest_t(src: &[f32; 4], mut x: f32) -> NormalizedF32Exclusive {
         }
     }
 
-    NormalizedF32Exclusive::new(best_t).unwrap()
+    // The bisection can end on exactly 0.0 or 1.0 when the curve only touches the edge at an end point.
+    NormalizedF32Exclusive::new_bounded(best_t)
 }
